@@ -601,6 +601,10 @@ namespace bloch::runtime {
         m_gcThreadStarted = false;
         m_allocSinceGc = 0;
         m_sim = QasmSimulator{m_collectQasmLog};
+        // functions first: a static initialiser may call one
+        for (auto& fn : program.functions) {
+            m_functions[fn->name] = fn.get();
+        }
         bool hasClasses = !program.classes.empty();
         if (hasClasses) {
             buildClassTable(program);
@@ -612,9 +616,6 @@ namespace bloch::runtime {
             std::sort(classNames.begin(), classNames.end());
             for (auto& cn : classNames) initStaticFields(m_classTable[cn].get());
             ensureGcThread();
-        }
-        for (auto& fn : program.functions) {
-            m_functions[fn->name] = fn.get();
         }
         auto it = m_functions.find("main");
         if (it != m_functions.end()) {
